@@ -106,6 +106,12 @@ def pca(X, centre=True, inplace=False, eps=1e-10):
         m = np.mean(X, axis=0)
     else:
         m = np.zeros(d, dtype=X.dtype)
+        if not np.issubdtype(X.dtype, np.inexact):
+            # integer data is not promoted by subtracting an integer zero
+            # mean: the products below would be formed, and could overflow,
+            # in the integer dtype
+            X = X.astype(np.float64)
+            m = m.astype(np.float64)
 
     # This is required if the data matrix is very large!
     if inplace:
